@@ -17,7 +17,10 @@ import stracelib as S
 HEADERSIZE = 37024
 
 
-def kind_of(op, root):
+def kind_of(op, root, sizes=None):
+    """effect kind of one file-mutating call. `sizes` (path -> index-area size, learnt from the
+    truncate at file creation) tells the blob writes of variable-length files ('D', beyond the
+    index area) from slot writes ('P')."""
     k = op["kind"]
     if k == "ack":
         return "A"
@@ -26,13 +29,19 @@ def kind_of(op, root):
         return "S"
     if p.endswith(".walfile"):
         return {"write": "W", "fsync": "F", "truncate": "T", "create": "c"}.get(k, "c")
-    if k == "write" and p.endswith(".bin") and (op["off"] or 0) >= HEADERSIZE:
-        return "P"
+    if p.endswith(".bin.tmp") or p.endswith(".bin"):
+        base = p[:-4] if p.endswith(".tmp") else p
+        if k == "truncate" and sizes is not None:
+            sizes[base] = op["len"]
+        if k == "write" and p.endswith(".bin") and (op["off"] or 0) >= HEADERSIZE:
+            if sizes is not None and base in sizes and (op["off"] or 0) >= sizes[base]:
+                return "D"
+            return "P"
     return "c"
 
 
-def gen_history(rng, focus):
-    """steps in `store` syntax; fixed-length buckets, sub-day timeframes"""
+def gen_history(rng, focus, var_share=0.0):
+    """steps in `store` syntax; sub-day timeframes; a bucket is variable-length with probability var_share"""
     tfs = ["1Min", "5Min", "1H", "15Min"]
     nb = 1 + rng.randrange(2)
     buckets = []
@@ -42,7 +51,9 @@ def gen_history(rng, focus):
         types = [rng.choice(["int32", "float32", "int64", "float64", "int16"]) for _ in range(ncol)]
         sizes = {"int32": 4, "float32": 4, "int64": 8, "float64": 8, "int16": 2}
         cols = ",".join("c%d=%s" % (i, t) for i, t in enumerate(types))
-        buckets.append(dict(key="B%d/%s/AG" % (b, tf), tf=tf, cols=cols, size=sum(sizes[t] for t in types)))
+        isvar = rng.random() < var_share
+        buckets.append(dict(key="B%d/%s/%s" % (b, tf, "TICK" if isvar else "AG"), tf=tf, cols=cols,
+                            size=sum(sizes[t] for t in types), rt="v" if isvar else "f"))
     tfsec = {"1Min": 60, "5Min": 300, "1H": 3600, "15Min": 900}
     steps = []
     created = set()
@@ -52,15 +63,19 @@ def gen_history(rng, focus):
     for i in range(n):
         b = rng.choice(buckets)
         if b["key"] not in created and rng.random() < 0.7:
-            steps.append("C:%s:f:%s" % (b["key"], b["cols"]))
+            steps.append("C:%s:%s:%s" % (b["key"], b["rt"], b["cols"]))
         created.add(b["key"])
         rows = []
         for _ in range(1 + rng.randrange(4)):
             t = rng.choice(pools[b["key"]])
             if rng.random() < 0.15:
                 t += 366 * 86400     # another year file
-            rows.append("%d,0,%s" % (t, bytes(rng.randrange(256) for _ in range(b["size"])).hex()))
-        steps.append("W:%s:f:%s:%s" % (b["key"], b["cols"], "+".join(rows)))
+            ns = 0
+            if b["rt"] == "v":
+                t += rng.randrange(tfsec[b["tf"]])
+                ns = rng.choice([0, 1, 999999999, rng.randrange(10**9)])
+            rows.append("%d,%d,%s" % (t, ns, bytes(rng.randrange(256) for _ in range(b["size"])).hex()))
+        steps.append("W:%s:%s:%s:%s" % (b["key"], b["rt"], b["cols"], "+".join(rows)))
         r = rng.random()
         if focus in ("ckpt", "all") and r < 0.25:
             steps.append("K")
@@ -93,6 +108,8 @@ def positions(ops, steps, root):
     j = 0
     cat_since_ack = False
     started = False
+    mid = False
+    sizes = {}
     for k in range(len(ops) + 1):
         if started:
             inflight = steps[a] if a < len(steps) else None
@@ -102,13 +119,20 @@ def positions(ops, steps, root):
                 jj = "*"
             elif j == 0 and cat_since_ack:
                 jj = "*"
+            elif mid:
+                jj = "m%d" % j
             else:
                 jj = str(j)
             out.append((k, a, jj))
         if k == len(ops):
             break
         op = ops[k]
-        kd = kind_of(op, root)
+        kd = kind_of(op, root, sizes)
+        if kd == "D":
+            mid = True
+            continue
+        if kd == "P":
+            mid = False
         if kd == "A":
             txt = op["text"]
             idx = int(txt.split(" ")[0])
@@ -129,8 +153,11 @@ def step_kinds(ops, steps, root):
     """real effect kinds per step, e.g. ['C:-', 'W:WWWWWWFPP', ...]"""
     res = []
     cur = []
+    sizes = {}
     for op in ops:
-        kd = kind_of(op, root)
+        kd = kind_of(op, root, sizes)
+        if kd == "D":
+            continue
         if kd == "A":
             idx = int(op["text"].split(" ")[0])
             if idx >= 0:
@@ -233,13 +260,13 @@ def run(pid, cfg, seed, tier, workdir, log, harness, driver, replay_lines=None):
         sample = 0
         for l in replay_lines:
             f = l.split(" ")
-            if f[0] == "walcrash":
+            if f[0] in ("walcrash", "walcrash01"):
                 histories.append((f[4].split(","), f[5:], "replay"))
             elif f[0] == "waltrace":
                 ks = sorted({st.split(":")[1] for st in f[2:] if st[:2] in ("C:", "W:")})
                 histories.append((ks, f[2:], "replay"))
     for h in range(nh):
-        steps, keys = gen_history(rng, focus)
+        steps, keys = gen_history(rng, focus, wcfg.get("var_share", 0.0))
         histories.append((keys, steps, "gen"))
     t0 = time.time()
     pool = concurrent.futures.ThreadPoolExecutor(max_workers=max(2, (os.cpu_count() or 4) - 2))
@@ -289,7 +316,7 @@ def run(pid, cfg, seed, tier, workdir, log, harness, driver, replay_lines=None):
                     patterns.append(("rand%d" % r, durable_image(ops, k, root, "rand", prng)))
             for pname, snap in patterns:
                 dest = os.path.join(workdir, "img-%d-%d-%s" % (hi, k, pname))
-                line = "walcrash %d %d %s %s %s" % (year, a, jj if mode != "power" else jj, ",".join(keys), " ".join(steps))
+                line = "%s %d %d %s %s %s" % (wcfg.get("op", "walcrash"), year, a, jj, ",".join(keys), " ".join(steps))
                 tagl = "%s,k=%d/%d,mode=%s,pattern=%s,inflight=%s" % (
                     src, k, len(ops), mode, pname, (steps[a][0] if a < len(steps) else "none"))
                 futs.append((line, tagl, pool.submit(restart_image, harness, snap, dest, keys, mode == "twice")))
